@@ -3657,6 +3657,117 @@ where
     }
 }
 
+/// Verification hook: a plain copy of every field of [`GenericConnection`].
+///
+/// Only compiled with `--cfg mqtt_protocol_core_verif`; read-only.
+#[cfg(mqtt_protocol_core_verif)]
+#[derive(Debug, Clone, PartialEq)]
+pub struct VerifState<PacketIdType> {
+    pub status: &'static str,
+    pub protocol_version: Version,
+    pub is_client: bool,
+    /// free id intervals of the packet id manager
+    pub pid_free: Vec<(PacketIdType, PacketIdType)>,
+    pub pid_suback: Vec<PacketIdType>,
+    pub pid_unsuback: Vec<PacketIdType>,
+    pub pid_puback: Vec<PacketIdType>,
+    pub pid_pubrec: Vec<PacketIdType>,
+    pub pid_pubcomp: Vec<PacketIdType>,
+    pub need_store: bool,
+    pub store_ids: Vec<PacketIdType>,
+    pub offline_publish: bool,
+    pub auto_pub_response: bool,
+    pub auto_ping_response: bool,
+    pub auto_map_topic_alias_send: bool,
+    pub auto_replace_topic_alias_send: bool,
+    pub topic_alias_recv: Option<(u16, Vec<(u16, String)>)>,
+    pub topic_alias_send: Option<(u16, Vec<(u16, String)>)>,
+    pub publish_send_max: Option<u16>,
+    pub publish_recv_max: Option<u16>,
+    pub publish_send_count: u16,
+    pub publish_recv: Vec<PacketIdType>,
+    pub maximum_packet_size_send: u32,
+    pub maximum_packet_size_recv: u32,
+    pub pingreq_user_send_interval_ms: Option<u64>,
+    pub pingreq_keep_alive_ms: u64,
+    pub pingreq_server_keep_alive_ms: Option<u64>,
+    pub pingreq_recv_timeout_ms: u64,
+    pub pingresp_recv_timeout_ms: u64,
+    pub qos2_publish_handled: Vec<PacketIdType>,
+    pub pingreq_send_set: bool,
+    pub pingreq_recv_set: bool,
+    pub pingresp_recv_set: bool,
+    /// `(phase, header bytes buffered, remaining length, payload bytes buffered)`
+    pub packet_builder: (u8, usize, usize, usize),
+}
+
+#[cfg(mqtt_protocol_core_verif)]
+impl<Role, PacketIdType> GenericConnection<Role, PacketIdType>
+where
+    Role: RoleType,
+    PacketIdType: IsPacketId,
+{
+    /// Verification hook: snapshot of the whole connection state (sets sorted).
+    pub fn verif_state(&self) -> VerifState<PacketIdType> {
+        fn sorted<T: Copy + Ord>(s: &HashSet<T>) -> Vec<T> {
+            let mut v: Vec<T> = s.iter().copied().collect();
+            v.sort();
+            v
+        }
+        VerifState {
+            status: match self.status {
+                ConnectionStatus::Disconnected => "disconnected",
+                ConnectionStatus::Connecting => "connecting",
+                ConnectionStatus::Connected => "connected",
+            },
+            protocol_version: self.protocol_version,
+            is_client: self.is_client,
+            pid_free: self.pid_man.verif_intervals(),
+            pid_suback: sorted(&self.pid_suback),
+            pid_unsuback: sorted(&self.pid_unsuback),
+            pid_puback: sorted(&self.pid_puback),
+            pid_pubrec: sorted(&self.pid_pubrec),
+            pid_pubcomp: sorted(&self.pid_pubcomp),
+            need_store: self.need_store,
+            store_ids: self
+                .store
+                .get_stored()
+                .iter()
+                .map(|p| p.packet_id())
+                .collect(),
+            offline_publish: self.offline_publish,
+            auto_pub_response: self.auto_pub_response,
+            auto_ping_response: self.auto_ping_response,
+            auto_map_topic_alias_send: self.auto_map_topic_alias_send,
+            auto_replace_topic_alias_send: self.auto_replace_topic_alias_send,
+            topic_alias_recv: self
+                .topic_alias_recv
+                .as_ref()
+                .map(|t| (t.max(), t.verif_dump())),
+            topic_alias_send: self
+                .topic_alias_send
+                .as_ref()
+                .map(|t| (t.max(), t.verif_dump())),
+            publish_send_max: self.publish_send_max,
+            publish_recv_max: self.publish_recv_max,
+            publish_send_count: self.publish_send_count,
+            publish_recv: sorted(&self.publish_recv),
+            maximum_packet_size_send: self.maximum_packet_size_send,
+            maximum_packet_size_recv: self.maximum_packet_size_recv,
+            pingreq_user_send_interval_ms: self.pingreq_user_send_interval_ms,
+            pingreq_keep_alive_ms: self.pingreq_keep_alive_ms,
+            pingreq_server_keep_alive_ms: self.pingreq_server_keep_alive_ms,
+            pingreq_recv_timeout_ms: self.pingreq_recv_timeout_ms,
+            pingresp_recv_timeout_ms: self.pingresp_recv_timeout_ms,
+            qos2_publish_handled: sorted(&self.qos2_publish_handled),
+            pingreq_send_set: self.pingreq_send_set,
+            pingreq_recv_set: self.pingreq_recv_set,
+            pingresp_recv_set: self.pingresp_recv_set,
+            packet_builder: self.packet_builder.verif_state(),
+        }
+    }
+}
+
 // tests
 
 #[cfg(test)]
